@@ -479,7 +479,75 @@ fn h_container(rng: &mut Rng, cap: usize, n: usize) -> R {
     Ok((n as u64, relocs))
 }
 
-const STRUCTS: [(&str, fn(&mut Rng, usize, usize) -> R); 11] = [
+fn h_counting_bitset(rng: &mut Rng, cap: usize, n: usize) -> R {
+    use iceoryx2_bb_lock_free::mpmc::counting_bit_set::RelocatableCountingBitSet;
+    let cap = cap * 5;
+    let mut b = Block::<RelocatableCountingBitSet>::new(cap, rng.next() as usize % 900);
+    let mut m: BTreeMap<usize, u64> = BTreeMap::new();
+    let mut relocs = 0;
+    for _ in 0..n {
+        if rng.chance(3, 4) {
+            let id = rng.below(cap as u64) as usize;
+            let prev = b.get().set(id);
+            let e = m.entry(id).or_insert(0);
+            if prev != *e {
+                bad!("result_differs_after_relocation", "counting bitset set({}) returned previous count {} model {}", id, prev, *e);
+            }
+            *e += 1;
+        } else {
+            let mut got: Vec<(usize, u64)> = Vec::new();
+            b.get().reset_all(|s| got.push((s.bit(), s.count())));
+            got.sort();
+            let exp: Vec<(usize, u64)> = m.iter().map(|(k, v)| (*k, *v)).collect();
+            if got != exp {
+                bad!("result_differs_after_relocation", "counting bitset reset_all {:?} model {:?} after {} relocations", got, exp, relocs);
+            }
+            m.clear();
+        }
+        maybe_reloc!(b, rng, relocs);
+    }
+    Ok((n as u64, relocs))
+}
+
+fn h_used_chunk_list(rng: &mut Rng, cap: usize, n: usize) -> R {
+    use iceoryx2_cal::zero_copy_connection::used_chunk_list::RelocatableUsedChunkList;
+    let cap = cap * 3;
+    let mut b = Block::<RelocatableUsedChunkList>::new(cap, rng.next() as usize % 900);
+    let mut m: std::collections::BTreeSet<usize> = Default::default();
+    let mut relocs = 0;
+    for _ in 0..n {
+        let idx = rng.below(cap as u64) as usize;
+        match rng.below(5) {
+            0 | 1 => {
+                let newly = b.get().insert(idx);
+                if newly != m.insert(idx) {
+                    bad!("result_differs_after_relocation", "used chunk list insert({}) -> {} differs from the model", idx, newly);
+                }
+            }
+            2 | 3 => {
+                let was = b.get().remove(idx);
+                if was != m.remove(&idx) {
+                    bad!("result_differs_after_relocation", "used chunk list remove({}) -> {} differs from the model", idx, was);
+                }
+            }
+            _ => {
+                let mut got = Vec::new();
+                b.get().remove_all(|i| got.push(i));
+                got.sort();
+                if got != m.iter().copied().collect::<Vec<_>>() {
+                    bad!("result_differs_after_relocation", "used chunk list remove_all {:?} model {:?} after {} relocations", got, m, relocs);
+                }
+                m.clear();
+            }
+        }
+        maybe_reloc!(b, rng, relocs);
+    }
+    Ok((n as u64, relocs))
+}
+
+const STRUCTS: [(&str, fn(&mut Rng, usize, usize) -> R); 13] = [
+    ("RelocatableCountingBitSet", h_counting_bitset),
+    ("RelocatableUsedChunkList", h_used_chunk_list),
     ("RelocatableVec", h_vec),
     ("RelocatableQueue", h_queue),
     ("RelocatableSlotMap", h_slotmap),
